@@ -188,7 +188,9 @@ impl C08 {
             let ledger = format!("{}2024/01/01 TXN1Q\n    Assets:A    10 AAPL {} {}\n    Assets:B\n", DECLS, if total { "@@" } else { "@" }, text);
             let want = match want_posting_amount(&verdict) {
                 Want::Value(m) => match m.iter().next() {
-                    Some((c, q)) if q.signum() > 0 && c != "AAPL" => {
+                    // a per-unit price may be negative (the sibling then gets the opposite sign); a
+                    // negative *total* is valued by its magnitude, which is not this property's business
+                    Some((c, q)) if (q.signum() > 0 || (q.signum() < 0 && !total)) && c != "AAPL" => {
                         let v = if total { Some(q.neg()) } else { q.mul(Q::int(-10)) };
                         match v {
                             Some(v) => Want::Value([(c.clone(), v)].into_iter().collect()),
